@@ -136,6 +136,17 @@ Theorem c15_subset_applies_configured : forall hs cfg c S,
 Proof. exact subset_applies_configured. Qed.
 Print Assumptions c15_subset_applies_configured.
 
+(* selectors of ANY length: a 4-key selector whose 4th key has two values among hosts agreeing on the first three keys -
+   both builders keep one subset per value *)
+Example c15_four_key_selector_example :
+  let hs := [mkSH 0 [(1, 1); (2, 1); (3, 1); (4, 1)] true; mkSH 1 [(1, 1); (2, 1); (3, 1); (4, 2)] true;
+             mkSH 2 [(1, 1); (2, 1); (3, 1); (4, 2); (5, 1)] true] in
+  let sels := generate_subset_keys [[4; 3; 2; 1]] in
+  map sid (match active_entry [(1, 1); (2, 1); (3, 1); (4, 1)] (build2x fh_mode hs sels) with Some l => l | None => [] end) = [0] /\
+  map sid (match active_entry [(1, 1); (2, 1); (3, 1); (4, 2)] (build2x fh_mode hs sels) with Some l => l | None => [] end) = [1; 2] /\
+  map sid (match active_entry [(1, 1); (2, 1); (3, 1); (4, 2)] (build1 hs sels) with Some l => l | None => [] end) = [1; 2].
+Proof. vm_compute. auto. Qed.
+
 Example c15_selector_example :
   generate_subset_keys [[3; 1]; [1]; [1; 3; 1]; []; [2; 3]; [3]; []] = [[1; 3]; [1]; []; [2; 3]; [3]].
 Proof. vm_compute. reflexivity. Qed.
